@@ -145,6 +145,8 @@ def run(ctx):
                 "coordinates concatenated in dimension-then-axis order as leading indices",
         "obligations": len(real) + len(st_obls), "discharged": sum(1 for r in real if r.discharged) + sum(1 for o in st_obls if o[1]),
         "canaries": sum(1 for r in results if r.kind == "canary"), "solver_s": round(sum(r.seconds for r in results), 2),
+        "back_ends": sorted({r.backend for r in real if r.discharged}) + (["syntactic match on the AST"] if st_obls else []),
+        "functions_under_contract": ["iindexes.iindex.slices1d", "ccubes.ccube.product", "ccubes.ccube.calculate.fill_one_cube (block selection)"],
         "names": [r.name for r in real] + [o[0] for o in st_obls], "proof_stale": sl_stale + st_stale}
     if sl_stale or st_stale:
         ctx.notes.append("proof_stale: %r - decided by the bounded block comparison" % (sl_stale + st_stale,))
